@@ -161,6 +161,22 @@ def boundary_values(r, tier):
     return out
 
 
+def edge_grids1(r):
+    """1.x beat grids whose beat indices sit at the edges of their 32-bit range (C03: every integer edge).  The layout stores, next
+    to every marker, the number of beats to the next one in a signed 32-bit field: a pair of neighbours further apart than 2^31 - 1
+    beats is a value the format cannot hold (EngineFormat!Grid1OK) and must be refused, every other pair must round-trip."""
+    lo, hi = -2147483648, 2147483647
+    shapes = [[lo, hi], [lo, 0, hi], [-1, hi], [0, hi], [lo, -1], [lo, lo + 1], [hi - 1, hi], [lo, -2, hi - 1], [-2, hi - 1], [-2, hi - 2, hi],
+              [lo + 1, hi], [-1073741824, 1073741823, hi]]
+    out = []
+    for sh in shapes:
+        g = [{"idx": idx, "off": list(struct.pack(">d", 100.0 + 22050.0 * k))} for k, idx in enumerate(sh)]
+        plain = [{"idx": k, "off": list(struct.pack(">d", 10.0 + 5.0 * k))} for k in range(2)]
+        out.append(("beat_data1", {"rate": [rf64(r)], "count": [rf64(r)], "dflt": g, "adj": plain}))
+        out.append(("beat_data1", {"rate": [rf64(r)], "count": [rf64(r)], "dflt": [], "adj": g}))
+    return out
+
+
 def corner_values(r, tier):
     """Values at the corners of the domain C03 names: grids of 40000 markers (each, and both at once), waveforms of 100000
     points.  Too large for TLC to compare byte by byte: the driver reports sizes and its own round-trip verdict (big = True)."""
@@ -229,6 +245,8 @@ def format_check(prop, tier, seed, want_enc, want_dec_spec, want_dec_foreign, ru
                 enc_lines.append(json.dumps({"kind": k, "v": rvalue(k, rnd, big=(tier != "quick" and i % 40 == 0))}) + "\n")
         # payload lengths on and next to multiples of the chunk size of the (de)compression loops
         for (k, v) in boundary_values(rnd, tier):
+            enc_lines.append(json.dumps({"kind": k, "v": v}) + "\n")
+        for (k, v) in edge_grids1(rnd):
             enc_lines.append(json.dumps({"kind": k, "v": v}) + "\n")
         # the corners of the domain (C03: grids of 0..40000 markers, waveforms of 0..100000 points)
         if prop == "C03":
